@@ -152,8 +152,8 @@ func (e *Exec) atomicSync(g *G, p PtrV) {
 		sh.sync = VC{}
 	}
 	g.vc.join(sh.sync)
-	g.vc.tick(g.id)
 	sh.sync = g.vc.clone()
+	g.vc.tick(g.id)
 }
 
 func (e *Exec) loadPtrNoRace(p PtrV) Value {
